@@ -124,7 +124,16 @@ def verify_function(prop, contract, callees, lib, timeout_hint=None, hooks=None)
             specs.update({k: v for k, v in case.items() if not k.startswith("_")})
             if hooks and "globals" in hooks:
                 ex.globals.update(hooks["globals"](ex, path))
+            # a parameter the contract does not mention but the source gives a default for (an optional parameter added later): the contract
+            # speaks about the calls that omit it, so it is bound to its default
+            _pos = list(fa.args)
+            _defaults = {a.arg: d for a, d in zip(_pos[len(_pos) - len(fa.defaults):], fa.defaults)}
+            _defaults.update({a.arg: d for a, d in zip(fa.kwonlyargs, fa.kw_defaults) if d is not None})
             for n in names:
+                if n not in specs and n in _defaults:
+                    path.env[n] = ex.ev(_defaults[n], path)
+                    res.defaulted = getattr(res, "defaulted", []) + [n]
+                    continue
                 if n not in specs:
                     raise Unsupported(f"contract of {contract.qual} gives no type for parameter '{n}'")
                 path.env[n] = build_param(specs[n], ex, path, n)
